@@ -98,6 +98,29 @@ fn mixed_programs() -> Vec<P> {
     out.into_iter().map(P::normalized).collect()
 }
 
+/// bridge hosts: programs that leave holes in the id space and then issue several requests in one
+/// batch (ids must stay distinct among outstanding requests and responses must reach their request)
+fn registry_stress_programs() -> Vec<P> {
+    let r = || P::Req(s0());
+    let v = vec![
+        P::All(vec![P::then(r(), P::All(vec![r(), r()])), r(), r()]),
+        P::All(vec![P::then(r(), P::All(vec![r(), r(), r()])), r(), r(), r()]),
+        P::then(P::All(vec![r(), r()]), P::All(vec![r(), r()])),
+        P::then(P::All(vec![r(), r(), r()]), P::All(vec![r(), r()])),
+        P::All(vec![P::ReqReq(s0(), s0()), P::ReqReq(s0(), s0()), r()]),
+        P::All(vec![P::then(r(), P::All(vec![r(), P::Stream(s0())])), P::Stream(s0()), r()]),
+        P::All(vec![P::StreamStream(s0(), s0()), r(), r()]),
+        P::All(vec![P::then(r(), P::All(vec![P::Notify(s0()), r(), r()])), r(), P::Notify(s0())]),
+    ];
+    let mut out = vec![];
+    for p in v {
+        let p = p.normalized();
+        out.push(p.clone().lookalike(2));
+        out.push(p);
+    }
+    out
+}
+
 fn legacy_programs(n: usize) -> Vec<P> {
     let atoms = vec![
         P::Done,
@@ -111,6 +134,7 @@ fn legacy_programs(n: usize) -> Vec<P> {
         P::Burst(s0(), s0()),
         P::SpawnAfter(s0(), s0()),
         P::HandOff(s0(), s0(), s0()),
+        P::StreamHandOff(s0(), s0()),
     ];
     let g = Grammar { unary: false, abortable: false, manual: false, trigger: true, sibling_abort: false, all3: true };
     let mut v: Vec<P> = dsl::terms_up_to(n, &atoms, g).into_iter().filter(app::legacy_ok).collect();
@@ -216,6 +240,9 @@ pub fn suites(id: &str, tier: Tier) -> Vec<Suite> {
             v.push(Suite { name: "look-alikes/legacy", host: HostKind::CoreLegacy, programs: legacy_filter(la.clone()), bounds: b.clone() });
             v.push(Suite { name: "legacy-futures", host: HostKind::CoreLegacy, programs: legacy_programs(tier.pick(2, 3)), bounds: bounds(tier.pick(7, 8), 0, 0, 2, 2) });
             v.push(Suite { name: "request-futures-changing-hands", host: HostKind::CoreCmd, programs: vec![P::HandOff(s0(), s0(), s0()).normalized(), P::HandOff(s0(), s0(), s0()).normalized().lookalike(2), P::All(vec![P::HandOff(s0(), s0(), s0()), P::Req(s0())]).normalized().lookalike(3)], bounds: bounds(tier.pick(7, 9), 0, 0, 2, 2) });
+            for host in [HostKind::Bincode, HostKind::Json] {
+                v.push(Suite { name: "id-space-holes+batches", host, programs: registry_stress_programs(), bounds: bounds(tier.pick(6, 8), 0, 0, 0, 1) });
+            }
             v.push(Suite { name: "arities", host: HostKind::Direct, programs: plain(2), bounds: bounds(tier.pick(6, 8), 0, 1, 3, 3) });
             v.push(Suite { name: "arities/after-cleanup", host: HostKind::Direct, programs: with_abort(2), bounds: bounds(tier.pick(6, 8), 1, 1, 3, 2) });
             v
@@ -258,6 +285,9 @@ pub fn suites(id: &str, tier: Tier) -> Vec<Suite> {
             v.push(Suite { name: "plain/legacy", host: HostKind::CoreLegacy, programs: legacy_programs(3), bounds: bounds(tier.pick(6, 8), 0, 0, 1, 2) });
             v.push(Suite { name: "mixed-legacy+command", host: HostKind::CoreCmd, programs: mixed_programs(), bounds: bounds(tier.pick(6, 8), 0, 0, 1, 2) });
             v.push(Suite { name: "mixed-legacy+command", host: HostKind::Json, programs: mixed_programs(), bounds: bounds(tier.pick(6, 8), 0, 0, 1, 2) });
+            for host in [HostKind::Bincode, HostKind::Json, HostKind::CoreCmd] {
+                v.push(Suite { name: "id-space-holes+batches", host, programs: registry_stress_programs(), bounds: bounds(tier.pick(6, 8), 0, 0, 0, 1) });
+            }
             v
         }
         "C06" => {
